@@ -157,7 +157,15 @@ Definition run_ucistr (line : str) : str :=
         else if str_eqb api (lit "pgn") then
           let '(r, ob) := uci_to_pgn T b text in after (match r with inr s => lit "ok:" ++ escape s | inl e => uci_err_text e end) ob
         else if str_eqb api (lit "san") then
-          after (match pgn_to_bb T b text with Some m => lit "ok:" ++ to_uci m | None => lit "err" end) (Some b)
+          (* pgn_to_bb runs is_move_legal (make; is_valid; unmake) over the generated moves: the board it leaves is the
+             result of those make/unmake pairs (identical to b whenever half b < 4096, by C03) *)
+          after (match pgn_to_bb T b text with Some m => lit "ok:" ++ to_uci m | None => lit "err" end)
+                (match pgn_regex text with
+                 | None => Some b
+                 | Some _ => fold_left (fun ob m => match ob with
+                                                     | Some b0 => match make b0 m with Some b1 => unmake b1 m | None => None end
+                                                     | None => None end) (gen_pseudo T b) (Some b)
+                 end)
         else if str_eqb api (lit "makeall") then
           let '(r, ob) := make_all_uci T b (words text) in after (match r with inr _ => lit "ok" | inl e => uci_err_text e end) ob
         else lit "BADAPI")
